@@ -22,7 +22,7 @@ from engine import families, internmodel as im, par, report, symnum, work
 from engine.symnum import SInt, Prover, explore, term
 
 PID = "C01"
-SRC = "/repo/src/measured"
+SRC = os.environ.get("VERIF_REPO", "/repo") + "/src/measured"
 
 # construction sites the harnesses below drive (qualified name of the enclosing function)
 HANDLED_SITES = {
@@ -67,6 +67,58 @@ def scan_sites() -> Dict[str, List[int]]:
 
         V().visit(tree)
     return sites
+
+
+def call_graph() -> Dict[str, set]:
+    """callers[qualified function] = qualified functions of __init__.py that call it.  `self.m` /
+    `cls.m` resolve to the enclosing class, `Name.m` to that class, a bare name to a module
+    function; a call through any other receiver counts as a call of every method of that name."""
+    tree = ast.parse(open(os.path.join(SRC, "__init__.py")).read())
+    classes = {n.name for n in tree.body if isinstance(n, ast.ClassDef)}
+    defs: List[Tuple[str, ast.AST]] = []
+    for n in tree.body:
+        if isinstance(n, ast.FunctionDef):
+            defs.append((n.name, n))
+        elif isinstance(n, ast.ClassDef):
+            for m in n.body:
+                if isinstance(m, ast.FunctionDef):
+                    defs.append((f"{n.name}.{m.name}", m))
+    names = {q for q, _ in defs}
+    callers: Dict[str, set] = {q: set() for q in names}
+    for q, node in defs:
+        own = q.split(".")[0] if "." in q else None
+        for c in ast.walk(node):
+            if not isinstance(c, ast.Call):
+                continue
+            f = c.func
+            targets = []
+            if isinstance(f, ast.Name):
+                targets = [f.id]
+            elif isinstance(f, ast.Attribute):
+                recv = f.value
+                # `X.m.__wrapped__(...)` calls X.m
+                if f.attr == "__wrapped__" and isinstance(recv, ast.Attribute):
+                    f, recv = recv, recv.value
+                if isinstance(recv, ast.Name) and recv.id in ("self", "cls") and own:
+                    targets = [f"{own}.{f.attr}"]
+                elif isinstance(recv, ast.Name) and recv.id in classes:
+                    targets = [f"{recv.id}.{f.attr}"]
+                else:
+                    targets = [n for n in names if n.endswith("." + f.attr)]
+            for t in targets:
+                if t in callers and t != q:
+                    callers[t].add(q)
+    return callers
+
+
+def covered_by_harness(site: str, callers: Dict[str, set], seen: Tuple[str, ...] = ()) -> bool:
+    """A constructor call inside a private helper is exercised by the harnesses of its callers:
+    covered when every function that calls the helper is itself harnessed or covered."""
+    if site in HANDLED_SITES:
+        return True
+    if site in seen or not callers.get(site):
+        return False
+    return all(covered_by_harness(c, callers, seen + (site,)) for c in callers[site])
 
 
 N = 0
@@ -411,7 +463,10 @@ def main(tier: str, selftest_cases: int = 0) -> int:
     families.boot()
     N = im.ndim()
     sites = scan_sites()
-    unknown = [s for s in sites if s not in HANDLED_SITES]
+    graph = call_graph()
+    unknown = [s for s in sites if not covered_by_harness(s, graph)]
+    rep.coverage["sites_covered_through_callers"] = {s_: sorted(graph.get(s_, ())) for s_ in sites
+                                                     if s_ not in HANDLED_SITES}
     if unknown:
         raise symnum.HarnessError(f"Unit constructor call sites without a harness: {unknown}")
     rep.coverage["constructor_call_sites"] = {k: v for k, v in sites.items()}
